@@ -510,12 +510,29 @@ class Session:
             # configuration: the caller names the cache by a relative path (with a redundant
             # component) from a working directory next to it
             base = os.path.dirname(self.root)
-            if self.cwd.get(fl) != base:
-                r = self.driver(fl).call({"op": "chdir", "dir": base})
-                if not r.get("ok"):
-                    raise ToolError("chdir failed: %r" % r)
-                self.cwd[fl] = base
-            req["cache"] = "./cache/../cache"
+            name = os.path.basename(self.root)
+            if not hasattr(self, "_sp_rng"):
+                import random as _r
+                self._sp_rng = _r.Random(len(self.dir) * 7919 + sum(map(ord, self.dir)))
+            # ... or by other spellings of the same directory, a different one for every call:
+            # trailing slash, doubled slashes and `.` components, through a symbolic link to it
+            sp = self._sp_rng.choice(["rel", "rel", "slash", "dots", "symlink"])
+            if sp == "rel":
+                if self.cwd.get(fl) != base:
+                    r = self.driver(fl).call({"op": "chdir", "dir": base})
+                    if not r.get("ok"):
+                        raise ToolError("chdir failed: %r" % r)
+                    self.cwd[fl] = base
+                req["cache"] = "./%s/../%s" % (name, name)
+            elif sp == "slash":
+                req["cache"] = self.root + "/"
+            elif sp == "dots":
+                req["cache"] = base + "/./" + name + "//"
+            else:
+                lk = os.path.join(base, name + "-via-link")
+                if not os.path.islink(lk):
+                    os.symlink(self.root, lk)
+                req["cache"] = lk
         req.setdefault("cache", self.root)
         self.ncalls += 1
         try:
